@@ -101,6 +101,10 @@ type Driver struct {
 	// Spun tells that the read loop gave up after too many consecutive errors.
 	Spun    bool
 	MaxErrs int
+	// LeftOpen lists ReadSlices errors (other than Persistence failures) that
+	// came back with the connection in use still open: the stream position is
+	// unknown after such an error, the client has to leave the connection.
+	LeftOpen []string
 }
 
 // InstallHooks routes the library's verification points to w.
@@ -310,6 +314,16 @@ func (d *Driver) StartReader() {
 				if errors.Is(err, mqtt.ErrClosed) {
 					return
 				}
+				if !errors.Is(err, ErrStore) {
+					d.W.Mu.Lock()
+					if cn := d.W.Cur(); cn != nil && !cn.closed {
+						d.W.log(Event{Kind: "monitor", Conn: cn.Idx, Note: "ReadSlices failed yet left the connection open: " + err.Error()})
+						d.mu.Lock()
+						d.LeftOpen = append(d.LeftOpen, fmt.Sprintf("ReadSlices returned %q and left connection %d open and in use (inbound offset %d)", err, cn.Idx, cn.InPos))
+						d.mu.Unlock()
+					}
+					d.W.Mu.Unlock()
+				}
 				t0 := time.Now() // before the call: the timer starts inside
 				bo := d.C.ReadBackoff(err)
 				if bo != nil && d.WaitBackoff {
@@ -340,6 +354,13 @@ func (d *Driver) StartReader() {
 			}
 		}
 	}()
+}
+
+// LeftOpenSnapshot returns the LeftOpen observations.
+func (d *Driver) LeftOpenSnapshot() []string {
+	d.mu.Lock()
+	defer d.mu.Unlock()
+	return append([]string(nil), d.LeftOpen...)
 }
 
 // ReadsSnapshot returns the reads so far.
